@@ -78,6 +78,15 @@ type SpecFn struct {
 	File   string
 }
 
+type Pred struct {
+	Name   string
+	Params []string
+	Body   ast.Expr
+	Src    string
+	File   string
+	Pkg    string
+}
+
 type Axiom struct {
 	Name string
 	Expr ast.Expr
@@ -126,6 +135,7 @@ type StructCheck struct {
 type Specs struct {
 	Contracts    map[string]*Contract // key: pkgpath + "|" + Key (repo contracts) or Key (spec files)
 	SpecFns      map[string]*SpecFn
+	Preds        map[string]*Pred
 	Axioms       []*Axiom
 	Lemmas       []*Lemma
 	GhostFields  map[string]*GhostField // "bytes.Buffer.content"
@@ -135,7 +145,7 @@ type Specs struct {
 }
 
 func newSpecs() *Specs {
-	return &Specs{Contracts: map[string]*Contract{}, SpecFns: map[string]*SpecFn{}, GhostFields: map[string]*GhostField{}}
+	return &Specs{Contracts: map[string]*Contract{}, SpecFns: map[string]*SpecFn{}, GhostFields: map[string]*GhostField{}, Preds: map[string]*Pred{}}
 }
 
 var labelRe = regexp.MustCompile(`^\[([A-Za-z0-9_:,.\-]+)\]\s*`)
@@ -318,7 +328,7 @@ func splitNames(s string) []string {
 var keywords = map[string]bool{"func": true, "serves": true, "requires": true, "ensures": true, "modifies": true,
 	"ghost": true, "loop": true, "panics_if": true, "trusted": true, "pure": true, "spec": true, "axiom": true,
 	"ghostfield": true, "opt": true, "assert_at": true, "rely": true, "lemma": true, "const": true, "struct": true,
-	"fresh": true, "nobody": true, "end": true, "vars": true}
+	"fresh": true, "nobody": true, "end": true, "vars": true, "pred": true}
 
 // parseSpecFile reads all //@ directives of a file.
 func (sp *Specs) parseFile(path, pkgPath string) error {
@@ -559,6 +569,25 @@ func (sp *Specs) parseFile(path, pkgPath string) error {
 				return errf("duplicate spec fn %s", sf.Name)
 			}
 			sp.SpecFns[sf.Name] = sf
+			cur = nil
+		case "pred":
+			// pred NAME(a, b) := body   (macro over the current heap)
+			i := findTop(rest, ":=")
+			op := strings.Index(rest, "(")
+			if i < 0 || op < 0 || op > i {
+				return errf("pred NAME(params) := body")
+			}
+			cl := matchClose(rest, op)
+			e, err := parseExpr(strings.TrimSpace(rest[i+2:]))
+			if err != nil {
+				return errf("pred: %v", err)
+			}
+			pd := &Pred{Name: strings.TrimSpace(rest[:op]), Params: splitNames(rest[op+1 : cl]), Body: e, Src: rest, File: path, Pkg: pkgPath}
+			key := pd.Name
+			if _, dup := sp.Preds[key]; dup {
+				return errf("duplicate pred %s", key)
+			}
+			sp.Preds[key] = pd
 			cur = nil
 		case "axiom":
 			// axiom [name] (x Int, s BSeq) expr     -- variables optional
